@@ -881,6 +881,22 @@ def _r3(ctx):
     f = prog.functions.get(H + "_do_rebin_histogram.interval_overlap")
     agg = prog.functions.get(H + "_do_rebin_histogram.aggregate_hist")
     if f is None or agg is None:
+        # by role: the overlap helper is the function of the histogram module (nested or at module level) with two parameters
+        # whose body reads .left / .right of both; the aggregation is the function that calls it
+        cands = []
+        for k_, fi_ in prog.functions.items():
+            if not k_.startswith(H) or len(fi_.params) != 2:
+                continue
+            attrs = {(x.value.id, x.attr) for x in ast.walk(fi_.node) if isinstance(x, ast.Attribute) and isinstance(x.value, ast.Name)}
+            if all((q, a_) in attrs for q in fi_.params for a_ in ("left", "right")):
+                cands.append(fi_)
+        if len(cands) == 1:
+            f = cands[0]
+            callers = [fi_ for k_, fi_ in prog.functions.items() if k_.startswith(H) and fi_ is not f and
+                       any(isinstance(c_.func, ast.Name) and c_.func.id == f.name for c_ in calls_in(fi_.node)) and
+                       not any(x is f.node for x in ast.walk(fi_.node))]
+            agg = callers[0] if len(callers) == 1 else None
+    if f is None or agg is None:
         raise AnalysisError("rebin helpers interval_overlap / aggregate_hist not found")
     ref, test = f.params
     from ..astutil import inline_single_defs
@@ -966,7 +982,10 @@ def _r3(ctx):
         v = lam[0].args.args[0].arg
         ok = isinstance(b, ast.BinOp) and isinstance(b.op, ast.Mult) and any(
             isinstance(x, ast.Call) and call_name(x) == f.name and len(x.args) == 2 and
-            norm_text(x.args[0]) == agg.params[0] and norm_text(x.args[1]) == v + ".name" for x in (b.left, b.right)) and \
+            norm_text(x.args[0]) in agg.params and norm_text(x.args[1]) == v + ".name" and
+            any(isinstance(c_, ast.Call) and isinstance(c_.func, ast.Attribute) and c_.func.attr == "overlaps" and c_.args and
+                norm_text(c_.args[0]) == norm_text(x.args[0]) for c_ in ast.walk(agg.node))          # the bin the rows were selected for
+            for x in (b.left, b.right)) and \
             any(norm_text(x).startswith(v + ".iloc[0]") for x in (b.left, b.right))
         r = [s_ for s_ in agg.node.body if isinstance(s_, ast.Return)][-1]
         ok = ok and isinstance(r.value, ast.Call) and isinstance(r.value.func, ast.Attribute) and r.value.func.attr == "sum"
